@@ -18,6 +18,7 @@ import numpy as np
 from mc import core, explore, gen
 from mc import harness as H
 from mc.ref import dataset as RD
+from mc.ref import calendar as cal
 from mc.ref import scores as RS
 from checks import common_data as CD
 
@@ -64,7 +65,12 @@ def build(ctx, n, seed):
         inputs.append(ai)
     tsub = ctx.choose("clim-times", SUBS3)
     ssub = ctx.choose("clim-locs", SUBS3)
-    K = gen.AInput("K.txt", [times[j] for j in tsub], leads, [locs[j] for j in ssub])
+    ktimes = [times[j] for j in tsub]
+    if ctx.choose_bool("clim-has-runs-3h-before"):
+        # the climatology file also holds a run three hours before each of its runs, stored in front of it: close in relative terms
+        # (1e-5 of a unix time is 3.7 h), but a different coordinate
+        ktimes = [x for t in ktimes for x in (t - 3 * 3600, t)]
+    K = gen.AInput("K.txt", ktimes, leads, [locs[j] for j in ssub])
     K.fields["fcst"] = {}
     K.fields["pit"] = {}
     K.fields["alt"] = {}
@@ -86,7 +92,7 @@ def build(ctx, n, seed):
     if special == "zero" and pos in K.fields["fcst"]:
         K.fields["fcst"][pos] = 0.0
     elif special == "equal-obs" and pos in K.fields["fcst"]:
-        K.fields["fcst"][pos] = obsv[(K.times[pos[0]], K.leads[pos[1]], K.locs[pos[2]][0])]
+        K.fields["fcst"][pos] = obsv.get((K.times[pos[0]], K.leads[pos[1]], K.locs[pos[2]][0]), 0.0)
     # deviation: -obsrange, which selects on the raw observation (not on the anomaly)
     orng = None
     if ctx.choose("obsrange", ("none", "inner")) == "inner":
@@ -94,7 +100,11 @@ def build(ctx, n, seed):
         orng = [ov[3], ov[-4]]
     # deviation: -fcst alt (another field plays the forecast; the anomaly is taken of whatever plays obs and fcst)
     ffield = "alt" if ctx.choose("-fcst", ("fcst", "alt")) == "alt" else None
-    return inputs, K, fcst_missing, orng, ffield
+    # deviation: -d (every day of the files, or the first and the last): the selection works on the common times, whatever order
+    # the climatology stores its runs in
+    dsel = ctx.choose("-d", ("none", "all-days", "first-and-last"))
+    dates = None if dsel == "none" else [cal.unixtime_to_date(t) for t in (times if dsel == "all-days" else (times[0], times[2]))]
+    return inputs, K, fcst_missing, orng, ffield, dates
 
 
 def score_api(data, metric, i, ax, thr):
@@ -111,15 +121,18 @@ def h_api(ctx):
     seed = core.seed()
     n = ctx.choose("inputs", (1, 2), free=True)
     ctype = ctx.choose("type", ("subtract", "divide"), free=True)
-    inputs, K, fcst_missing, orng, ffield = build(ctx, n, seed)
+    inputs, K, fcst_missing, orng, ffield, dates = build(ctx, n, seed)
     try:
-        ref = RD.RefData(inputs, clim=K, clim_type=ctype, obs_range=orng, **({"fcst_field": ffield} if ffield else {}))
+        ref = RD.RefData(inputs, clim=K, clim_type=ctype, obs_range=orng, dates=dates, **({"fcst_field": ffield} if ffield else {}))
     except RD.RefError:
         ref = None
     objs = CD.build_inputs(inputs + [K])
     lst = objs[:-1]
     n_before = len(lst)
     kw = {"obs_range": orng} if orng is not None else {}
+    if dates is not None:
+        kw["dates"] = dates
+        ctx.flag("dates")
     if ffield:
         import verif.field
         kw["fcst_field"] = verif.field.Other(ffield)
@@ -193,16 +206,18 @@ def h_cli(ctx):
     n = ctx.choose("inputs", (1, 2), free=True)
     flag = ctx.choose("flag", ("-c", "-C"), free=True)
     ctype = "subtract" if flag == "-c" else "divide"
-    inputs, K, fcst_missing, orng, ffield = build(ctx, n, seed)
+    inputs, K, fcst_missing, orng, ffield, dates = build(ctx, n, seed)
     d = os.path.join(H.scratch(), "c14cli")
     os.makedirs(d, exist_ok=True)
     paths = [gen.text_file(ai, os.path.join(d, ai.name)) for ai in inputs]
     kp = gen.text_file(K, os.path.join(d, K.name), row_order=K.positions()[::-1])
     try:
-        ref = RD.RefData(inputs, clim=K, clim_type=ctype, obs_range=orng, **({"fcst_field": ffield} if ffield else {}))
+        ref = RD.RefData(inputs, clim=K, clim_type=ctype, obs_range=orng, dates=dates, **({"fcst_field": ffield} if ffield else {}))
     except RD.RefError:
         ref = None
     extra = ["-obsrange", "%r,%r" % (orng[0], orng[1])] if orng is not None else []
+    if dates is not None:
+        extra += ["-d", ",".join(str(int(x)) for x in dates)]
     if ffield:
         extra += ["-fcst", ffield]
     # deviation: the other climatology flag, with another file, earlier on the command line - the last one given is the one used
@@ -256,9 +271,9 @@ def run(tier, only=None):
             continue
         t0 = time.time()
         st = explore.explore(h, mode=mode, k=k, repo_root=core.REPO, time_cap=(300 if tier == "quick" else 3000))
-        subs.append(core.Sub.from_e1(name, st, bound="dev(%d) over climatology coverage/order, missing cells, zero / equal-to-obs climatology value, -obsrange, -fcst <other field>, the other climatology flag first (CLI); full over {-c,-C} x {1,2} inputs" % k,
+        subs.append(core.Sub.from_e1(name, st, bound="dev(%d) over climatology coverage/order, missing cells, zero / equal-to-obs climatology value, -obsrange, -fcst <other field>, -d, climatology runs three hours before each run, the other climatology flag first (CLI); full over {-c,-C} x {1,2} inputs" % k,
                                      rule="one execution = one dataset + climatology; requests, 9 metrics x 3 axes, metamorphic pair and naming checks; non-trivial = at least one valid case",
-                                     required_flags=("metamorphic", "obsrange", "fcst-field") if name == "api" else ("two-climatology-flags",), wall=time.time() - t0))
+                                     required_flags=("metamorphic", "obsrange", "fcst-field", "dates") if name == "api" else ("two-climatology-flags",), wall=time.time() - t0))
     return subs
 
 
